@@ -3,8 +3,9 @@ import json
 from gen import common, btcp, framing
 from gen.common import hexs
 
-LEAN_MODULE = "XcmModel.Props.C06"
+LEAN_MODULE = ["XcmModel.Props.C06", "XcmModel.Props.Utls"]
 THEOREMS = [
+    "XcmModel.UtlsProps.C06_utls_connect_errno", "XcmModel.UtlsProps.C13_utls_fallback_rule", "XcmModel.UtlsProps.C01_utls_pure_delegation",
     "XcmModel.C06.C06_closed_behaviour", "XcmModel.C06.C06_bad_same_errno", "XcmModel.C06.C06_discoverer_reports",
     "XcmModel.C06.C06_establish_failure", "XcmModel.C06.C06_btcp_sticky", "XcmModel.C06.C06_no_success_after_terminal",
     "XcmModel.C06.C06_framing_passes_up", "XcmModel.C06.C06_framing_send_errno",
@@ -118,6 +119,10 @@ def run(ctx):
     from gen import btls as _btls
     _btls.run_part(ctx, 40 if ctx.tier == "quick" else 2000, exhaustive=True)
     ctx.rule += (" unit_btls: the real xcm_tp_btls.c with scripted OpenSSL answers vs the Lean Btls model: every OpenSSL event x first observer x state x verdict, conn_update for every reachable (state, ssl_condition, ssl_wants) x condition x SSL_has_pending, seeded random histories; stickiness/discoverer/rc-range/gating monitors.")
+    # utls: the errno of a failed UX connect other than ECONNREFUSED is the result; afterwards a connection is its sub-connection
+    from gen import utls as _utls
+    _utls.run_part(ctx, 20 if ctx.tier == "quick" else 800, label="c06utls")
+    ctx.rule += " unit_utls: connect fallback (TLS tried iff UX said ECONNREFUSED, any other errno reported as is) and pure delegation vs the Lean Utls model."
     # live connections of every transport
     from gen import fault as _fault
     _fault.run_part(ctx)
